@@ -154,6 +154,7 @@ fn main() {
                 "gen:rich-chain-stream" => pdfgen::docs::rich_doc(b"", pdfgen::docs::DocOpts::CHAIN_STREAM),
                 "gen:small" => pdfgen::docs::small_doc(b""),
                 "gen:hostile" => pdfgen::docs::rich_doc_with(b"", pdfgen::docs::DocOpts::CLASSIC, &pdfgen::docs::hostile_objects()),
+                w if w.starts_with("special:") => props::c14::special_cases().into_iter().find(|(n, _)| n == &w[8..]).expect("no such special").1,
                 path => std::fs::read(path).expect("read"),
             };
             if let Some(out) = args.get(4) {
